@@ -66,7 +66,11 @@ def match_known(prop, v, known):
     """A violation is a known finding iff property, class and every key of the
     entry's causal signature match exactly."""
     for k in known.get('known', []):
-        if k['property'] != prop or k['cls'] != v['cls']:
+        if k['property'] != prop:
+            continue
+        if 'cls' in k and k['cls'] != v['cls']:
+            continue
+        if 'cls_prefix' in k and not v['cls'].startswith(k['cls_prefix']):
             continue
         sig = k.get('signature', {})
         if all(v.get('sig', {}).get(a) == b for a, b in sig.items()):
@@ -80,7 +84,8 @@ def write_replay(prop, v, tag):
     path = os.path.join(REPLAY_DIR, name)
     with open(path, 'w') as f:
         json.dump({'property': prop, 'cls': v['cls'], 'detail': v['detail'],
-                   'sig': v.get('sig', {}), 'scenario': v['scenario']}, f,
+                   'sig': v.get('sig', {}), 'minimised': v.get('minimised'),
+                   'scenario': v['scenario']}, f,
                   indent=1, sort_keys=True, default=repr)
     return path
 
@@ -95,9 +100,20 @@ def write_evidence(prop, tier, seed, level, coverage, wall, violations,
         json.dump(ev, f, indent=1, sort_keys=True, default=repr)
 
 
+class ScenarioTimeout(BaseException):
+    pass
+
+
+def _alarm(signum, frame):
+    raise ScenarioTimeout()
+
+
 def _worker(args):
     modname, params = args
-    faulthandler.dump_traceback_later(600, exit=True)
+    import signal
+    faulthandler.dump_traceback_later(900, exit=True)
+    signal.signal(signal.SIGALRM, _alarm)
+    signal.setitimer(signal.ITIMER_REAL, 240)
     try:
         mod = __import__('simqb.props.' + modname, fromlist=['x'])
         res = mod.run_params(params)
@@ -105,6 +121,23 @@ def _worker(args):
     except BaseException as e:     # harness bug: surface, do not hide
         return {'harness_error': ''.join(traceback.format_exception(e))[-3000:],
                 'params': params}
+    finally:
+        signal.setitimer(signal.ITIMER_REAL, 0)
+        faulthandler.cancel_dump_traceback_later()
+
+
+def _min_worker(args):
+    modname, v, max_runs = args
+    faulthandler.dump_traceback_later(900, exit=True)
+    try:
+        mod = __import__('simqb.props.' + modname, fromlist=['x'])
+        m = getattr(mod, 'minimise', None)
+        if m is None:
+            return None
+        return m(v, max_runs)
+    except BaseException:
+        traceback.print_exc()
+        return None
     finally:
         faulthandler.cancel_dump_traceback_later()
 
@@ -183,14 +216,14 @@ def drive(prop, modname, tier, level, rule, assumptions, extra_cov=None):
         print(f"NOTE: known finding {k['id']} no longer reproduces from its pinned witness")
 
     replays = []
-    minimise = getattr(mod, 'minimise', None)
-    for cls in sorted(new):
+    # minimise a few classes in parallel (bounded), report all
+    order = sorted(new)
+    todo = [(modname, new[c][0], 60 if tier == 'quick' else 220) for c in order[:6]]
+    mins = pmap(_min_worker, todo, chunk=1) if todo else []
+    for i, cls in enumerate(order):
         v = new[cls][0]
-        if minimise is not None:
-            try:
-                v = minimise(v)
-            except Exception:
-                traceback.print_exc()
+        if i < len(mins) and mins[i] is not None:
+            v = mins[i]
         tag = f"{seed}-{digest([cls, v['detail']])[:8]}"
         path = write_replay(prop, v, tag)
         replays.append(path)
